@@ -200,6 +200,40 @@ func (c *Ctx) hasherPassThrough() {
 		}
 	}
 	r.Check(okC, "C06.hasher", FuncName(cmp), "bcrypt.CompareHashAndPassword(args)", posC, "hash and password handed to bcrypt unmodified, verdict returned as is", "the default hasher does not hand hash and password to bcrypt unmodified or does not return bcrypt's verdict")
+	// call sites: what is hashed at registration/recovery and what is compared at
+	// login is the submitted password as typed — the sibling sites must agree, so a
+	// site that trims, folds or re-encodes its input rejects (and counts as
+	// failures) correct passwords set through another site
+	for _, f := range c.P.Funcs {
+		if strings.HasSuffix(pkgOf(f), "/mocks") {
+			continue
+		}
+		for _, call := range Calls(f) {
+			cc := call.Common()
+			if !cc.IsInvoke() || !strings.HasSuffix(cc.Value.Type().String(), ".Hasher") {
+				continue
+			}
+			idx := -1
+			switch cc.Method.Name() {
+			case "CompareHashAndPassword":
+				idx = 1
+			case "GenerateHash":
+				idx = 0
+			}
+			if idx < 0 {
+				continue
+			}
+			pw := stripConv(Arg(call, idx))
+			okPW := false
+			switch x := pw.(type) {
+			case *ssa.Parameter:
+				okPW = true
+			case *ssa.Call:
+				okPW = x.Call.IsInvoke() && x.Call.Method.Name() == "GetPassword" && len(x.Call.Args) == 0
+			}
+			r.Check(okPW, "C06.hasher", FuncName(f), cc.Method.Name()+"(password as submitted)", posf(c, call), "the submitted password reaches the hasher as typed", "the password is transformed ("+SafeString(pw)+") before it reaches the hasher: the sites that set a password and the site that checks it no longer agree on what the password is")
+		}
+	}
 	for _, fn := range []*ssa.Function{gen} {
 		for _, b := range fn.Blocks {
 			for _, in := range b.Instrs {
